@@ -1295,3 +1295,236 @@ def run_fault_case(run, model, case):
         return info, problems, sim.traces
     finally:
         sim.close()
+
+
+# ==============================================================================================
+# driver
+# ==============================================================================================
+
+def compare_traces(run, model, traces, label, rng, cap):
+    """replay recorded finder traces through the model; value finders and traces that saw a failure first"""
+    def weight(f):
+        return (0 if f.KIND == 'value' else 1, -len(f._events))
+    chosen = sorted(traces, key=weight)[:cap // 2]
+    rest = [f for f in traces if f not in chosen]
+    rng.shuffle(rest)
+    chosen += rest[:cap - len(chosen)]
+    for f in chosen:
+        if not getattr(f, '_meta', None):
+            continue
+        case, impl, mod, res = compare_trace(run, model, f, label)
+        small = {'part': 'finder-trace', 'label': label, 'kind': f.KIND, 'searcher': f._meta['searcher'],
+                 'key': f._meta['key'], 'events': len(case['request']['events'])}
+        run.case(small, nontrivial=len(case['request']['events']) > 2, sample=False)
+        run.count('trace:%s:events<=%d' % (f.KIND, 1 << max(0, len(case['request']['events']) - 1).bit_length()))
+        kinds = {e['e'] for e in case['request']['events']}
+        for k in kinds:
+            run.count('trace-event:' + k)
+        ok = run.compare('C12.frun', {'label': label, 'request': case['request']}, impl, mod)
+        # the proved bound, evaluated on the real trace
+        if ok and res['sched'] > res['seeds'] + 33 * max(1, len(f._learned)):
+            run.violation(small, 'probes exceed the proved bound', signature=None)
+    return len(chosen)
+
+
+def do_case(run, model, case, rng=None):
+    """run one self-contained case (also used by replay); returns nothing, records into run"""
+    rng = rng or random.Random(case.get('seed', 1))
+    part = case['part']
+    if part == 'ds':
+        impl, mod, problems = run_ds_case(run, model, case)
+        run.case(case, nontrivial=any(o[0] == 'get' for o in case['ops']))
+        run.count('ds:ops<=%d' % (1 << max(0, len(case['ops']) - 1).bit_length()))
+        if problems:
+            run.violation(case, problems[0], signature={'part': 'ds', 'ops': case['ops'][:40]})
+        else:
+            run.compare('C12.ds', case, impl, mod)
+    elif part == 'pages':
+        impl, mod, problems = run_pages_case(run, model, case)
+        run.case(case, nontrivial=case['n'] > 0)
+        run.count('pages:%s' % case['variant'])
+        if problems:
+            run.violation(case, problems[0], signature={'part': 'pages', 'n': case['n'], 'variant': case['variant']})
+        else:
+            run.compare('C12.serve_page', case, impl, mod)
+    elif part == 'compact':
+        impl, mod, problems = run_compact_case(run, model, case)
+        run.case(case, nontrivial=True)
+        run.count('compact:' + impl)
+        if problems:
+            run.violation(case, problems[0], signature={'part': 'compact', 'bs': case['bs']})
+        else:
+            run.compare('C12.decode_compact', case, impl, mod)
+    elif part == 'paging_sim':
+        impl, mod, problems, traces = run_paging_sim(run, model, case)
+        run.case(case, nontrivial=case['n'] > 0)
+        run.count('paging_sim:n<=%d' % (1 << max(0, case['n'] - 1).bit_length()))
+        if problems:
+            run.violation(case, problems[0], signature={'part': 'paging_sim', 'n': case['n']})
+        else:
+            run.compare('C12.walk', case, impl, mod)
+        compare_traces(run, model, [t for t in traces if t.KIND == 'value'], 'paging_sim n=%d' % case['n'], rng, 3)
+    elif part == 'crafted_loss':
+        info, problems, traces = run_crafted_loss(run, model, case)
+        run.case(case, nontrivial=True)
+        run.count('crafted_loss')
+        if problems:
+            run.violation(case, problems[0], signature={'part': 'crafted_loss', 'n_ann': case['n_ann'], 'seed': case['seed']})
+        compare_traces(run, model, [t for t in traces if t.KIND == 'value'], 'crafted_loss', rng, 2)
+    elif part == 'hit':
+        info, problems, traces = run_hit_case(run, model, case)
+        run.case(case, nontrivial=True)
+        run.count('hit:n=%d' % case['n'])
+        for p in problems[:3]:
+            run.violation(case, p, signature={'part': 'hit', 'n': case['n'], 'seed': case['seed']})
+        compare_traces(run, model, traces, 'hit n=%d seed=%d' % (case['n'], case['seed']), rng, case.get('trace_cap', 60))
+        return info
+    elif part == 'fault':
+        info, problems, traces = run_fault_case(run, model, case)
+        run.case(case, nontrivial=True)
+        run.count('fault:' + '+'.join(case['hostile']))
+        run.count('fault:loss=%s' % case['loss'])
+        for p in problems[:3]:
+            run.violation(case, p, signature={'part': 'fault', 'hostile': case['hostile'], 'seed': case['seed']})
+        compare_traces(run, model, traces, 'fault %s seed=%d' % ('+'.join(case['hostile']), case['seed']), rng,
+                       case.get('trace_cap', 80))
+        return info
+    else:
+        raise ValueError('unknown case part %r' % part)
+    return None
+
+
+def load_corpus():
+    out = []
+    if os.path.isdir(CORPUS):
+        for nm in sorted(os.listdir(CORPUS)):
+            if nm.endswith('.json'):
+                body = json.load(open(os.path.join(CORPUS, nm)))
+                out.extend(body if isinstance(body, list) else [body])
+    return out
+
+
+def main(run):
+    model = vlib.Model('C12')
+    rng = run.rng
+    tier = run.tier
+    t_start = _walltime.time()
+    run.rule = (
+        'A data store: op lists (add/get/expire/has/contacts, peers made bad/good through the real PeerManager) with times '
+        'placed on ts+86400-2..+2 of earlier announcements; B1 findValue pages for n=0..K*35 x {plain, requester stored, '
+        'node has blob} on the real KademliaRPC against an independent shuffle (random.Random(node_id)); B2 the real value '
+        'finder paging one real storing node with n announcing peers (page boundaries 7,8,9,...,88,89,97,98,105,256,257,'
+        '264,265); C compact addresses on every edge of the reserved networks x port edges x id lengths; E1 honest '
+        'loss-free networks of 2..40 real Nodes, sampled join orders/gaps, delay up to 2 s with reordering and '
+        'duplication, 1-3 announcers using the BlobAnnouncer retry rule, lookups from every node fresh / +12h / 24h-150s '
+        '/ 24h+; E2 networks with datagram loss 0-50%, delay up to 7 s, dead nodes and a fixed catalogue of %d hostile '
+        'reply kinds; D every finder that ran in B2/E1/E2 (incl. join/refresh/announce lookups) is replayed event by event '
+        'through the extracted model. distinct = distinct case dict (seeded scenarios / op lists / byte strings / finder '
+        'traces by searcher+key+length); non-trivial = contains at least one query (ds), n>0 (pages), >2 events (traces).'
+        % len(FAULT_KINDS))
+    supporting = {'hit_runs': 0, 'hit_lookups': 0, 'hit_misses': 0, 'stale_hits': 0, 'late_lookups': 0,
+                  'stored_to': {}, 'closest_overlap': {}, 'announce_tries': {}, 'by_size': {},
+                  'fault_runs': 0, 'fault_lookups': 0, 'alias_id_yields': 0, 'hostile_requests_answered': 0}
+
+    def add_hit(info, n):
+        if not info:
+            return
+        supporting['hit_runs'] += 1
+        for cp in info['checkpoints'].values():
+            supporting['hit_lookups'] += cp['lookups']
+            supporting['hit_misses'] += cp['misses']
+            supporting['stale_hits'] += cp['stale_hits']
+            supporting['late_lookups'] += cp['late']
+        for s in info['stored']:
+            supporting['stored_to'][str(s)] = supporting['stored_to'].get(str(s), 0) + 1
+        for got, of in info['closest_overlap']:
+            k = '%d/%d' % (got, of)
+            supporting['closest_overlap'][k] = supporting['closest_overlap'].get(k, 0) + 1
+        for t in info['tries']:
+            supporting['announce_tries'][str(t)] = supporting['announce_tries'].get(str(t), 0) + 1
+        bs = supporting['by_size'].setdefault(str(n), {'runs': 0, 'misses': 0})
+        bs['runs'] += 1
+        bs['misses'] += sum(cp['misses'] for cp in info['checkpoints'].values())
+
+    def add_fault(info):
+        if not info:
+            return
+        supporting['fault_runs'] += 1
+        supporting['fault_lookups'] += info['lookups']
+        supporting['alias_id_yields'] += info['alias_yields']
+        supporting['hostile_requests_answered'] += info['hostile_answered']
+
+    # ---- corpus first
+    for case in load_corpus():
+        if case.get('tier') == 'thorough' and tier != 'thorough':
+            continue
+        info = do_case(run, model, case, random.Random(1))
+        if case['part'] == 'hit':
+            add_hit(info, case['n'])
+        elif case['part'] == 'fault':
+            add_fault(info)
+
+    # ---- A
+    for i in range(vlib.scaled(tier, 400, 8000)):
+        do_case(run, model, gen_ds_ops(rng, rng.choice([5, 12, 30, 60])))
+    # ---- B1
+    ns = list(range(0, 41)) + [63, 64, 65, 71, 72, 73, 88, 89, 96, 97, 98, 99, 104, 105, 255, 256, 257, 263, 264, 265, 280]
+    if tier == 'thorough':
+        ns = list(range(0, K * 35 + 1))
+    for n in ns:
+        for variant in ('plain', 'requester_is_stored', 'has_blob'):
+            do_case(run, model, {'part': 'pages', 'n': n, 'variant': variant, 'seed': rng.randrange(1000)})
+    # ---- C
+    for b in gen_compacts(rng, vlib.scaled(tier, 3000, 60000)):
+        do_case(run, model, {'part': 'compact', 'bs': b.hex()})
+    # ---- B2
+    b2 = [0, 1, 7, 8, 9, 16, 17, 33, 64, 88, 89, 97, 98, 105]
+    if tier == 'thorough':
+        b2 = sorted(set(b2 + list(range(0, 41)) + [96, 99, 104, 128, 200, 255, 256, 257, 263, 264, 265, 270]))
+    for n in b2:
+        do_case(run, model, {'part': 'paging_sim', 'n': n, 'seed': rng.randrange(1000)}, rng)
+    # ---- E1
+    if tier == 'thorough':
+        sizes = list(range(2, 41)) * 2
+    else:
+        sizes = [2, 3, 4, 5, 6, 7, 9, 12, 16, 22, 30, 40]
+    for idx, n in enumerate(sizes):
+        case = gen_hit_case(rng, n, idx)
+        if tier == 'thorough' and idx % 13 == 0 and n <= 12:
+            case['passage'] = 'real'
+        if tier != 'thorough' and n == 5:
+            case['passage'] = 'real'
+        add_hit(do_case(run, model, case, rng), n)
+    # ---- E2
+    for idx in range(vlib.scaled(tier, 16, 240)):
+        add_fault(do_case(run, model, gen_fault_case(rng, idx), rng))
+
+    run.partial = [
+        'whole-network hit guarantee ("every other node\'s value lookup returns the announcer"): depends on global '
+        'routing convergence, no inductive invariant; explored by simulation of the real nodes only (supporting_only)',
+        'time bound: the theorems bound the NUMBER of probes (C12_finder_terminates*); that each probe ends within one '
+        'RPC timeout is a property of asyncio.wait_for in KademliaProtocol.send_request, checked by the monitor on every '
+        'simulated lookup, not proved',
+        'routing table, ping queue, token handling and join/refresh are exercised by the simulation but not modelled',
+    ]
+    supporting['note'] = ('supporting evidence only, never an obligation. An announcement counts once announce_blob() '
+                          'returned >= min(5, n-1) node ids (the BlobAnnouncer success rule; it retries every 60 s before). '
+                          '"replied" for node lookups is judged per (address, port); alias_id_yields counts yielded contacts '
+                          'whose node id nobody owns (hostile alias_contacts / claims_key replies) - reported here only.')
+    supporting['wall_s'] = round(_walltime.time() - t_start, 1)
+    run.supporting = supporting
+    run.exhaustive = False
+    model.close()
+
+
+def replay(run, case):
+    model = vlib.Model('C12')
+    if case.get('part') == 'finder-trace' and 'request' not in case:
+        run.notes.append('finder traces are replayed through the scenario that produced them (see label)')
+    elif 'request' in case:       # a disagreeing trace: re-run the model side only and show it
+        res = model.call('frun', **case['request'])
+        run.notes.append({'model': res})
+        run.case({'part': 'finder-trace', 'label': case.get('label')})
+    else:
+        do_case(run, model, case, random.Random(1))
+    model.close()
